@@ -35,3 +35,24 @@ Definition predefined_libraries : list string := ["work"].
 
 Definition predefined_used_by_emitter : list string :=
   predefined_types ++ predefined_functions ++ predefined_literals ++ predefined_libraries.
+
+(** operator member name (ir.BinOp.Operator etc.) -> the VHDL operator the emitter must print for it;
+    the fail-closed reader maps these strings to [NumStd.binop] / [NumStd.unop] constructors *)
+Definition binop_string_ref : list (string * string) :=
+  [("ADD", "+"); ("BIT_AND", "and"); ("BIT_OR", "or"); ("BIT_XOR", "xor"); ("CONCAT", "&");
+   ("MOD", "mod"); ("MUL", "*"); ("REM", "rem"); ("SUB", "-"); ("TRUNC_DIV", "/")].
+
+Definition compare_string_ref : list (string * string) :=
+  [("EQ", "="); ("GE", ">="); ("GT", ">"); ("LE", "<="); ("LT", "<"); ("NE", "/=")].
+
+Definition unaryop_string_ref : list (string * string) :=
+  [("INV", "not "); ("NEG", "-")].
+
+Definition pair_eqb (a b : string * string) : bool := String.eqb (fst a) (fst b) && String.eqb (snd a) (snd b).
+
+Fixpoint pairs_eqb (a b : list (string * string)) : bool :=
+  match a, b with
+  | [], [] => true
+  | x :: r, y :: r' => pair_eqb x y && pairs_eqb r r'
+  | _, _ => false
+  end.
